@@ -5,6 +5,8 @@
      c_ops    the model operations of the workload (built by the harness from the workload and
               the log of an uncrashed run: accepted samples with their in-order/out-of-order
               classification, the ranges of the head blocks cut, the parents of merged blocks)
+     c_trace  fs_trace c_cfg c_ops, evaluated once per case file (the case file defines it as
+              `Eval vm_compute in fs_trace ...`), so that the cases of one workload share it
      c_kinds  the kinds of the persistence steps (hook hits) the uncrashed run took, in order
      c_k      how many persistence steps the crashed run completed (None: killed at a random
               time, position unknown)
@@ -43,7 +45,7 @@ Inductive hop :=
 Definition hdel (a b : int) (sel : list int) : hop := HDel (z a) (z b) (map z sel).
 
 Record case := mkCase {
-  c_id : int; c_cfg : cfg; c_ops : list op; c_kinds : list int; c_hist : list hop;
+  c_id : int; c_cfg : cfg; c_ops : list op; c_trace : list fsop; c_kinds : list int; c_hist : list hop;
   c_k : option int; c_over : option (int * op);
   c_acked : int; c_inflight : bool; c_opened : bool; c_obs : list sample }.
 
@@ -92,11 +94,11 @@ Definition agree (c : case) : bool :=
   match c_k c with
   | None => true
   | Some k =>
-      listZ_eqb (map kind (fs_trace (c_cfg c) (c_ops c))) (map z (c_kinds c))
+      listZ_eqb (map kind (c_trace c)) (map z (c_kinds c))
       && c_opened c
       && match c_over c with
          | None =>
-             samples_eqb (canon (recover (durable (fs0 (c_cfg c)) (firstn (Z.to_nat (z k)) (fs_trace (c_cfg c) (c_ops c))))))
+             samples_eqb (canon (recover (durable (fs0 (c_cfg c)) (firstn (Z.to_nat (z k)) (c_trace c)))))
                          (c_obs c)
          | Some (i, o) =>
              let before := firstn (Z.to_nat (z i)) (c_ops c) in
